@@ -151,5 +151,11 @@ func FromError(err error, line uint, absPath, origin string, args ...any) *Error
 		return nil
 	}
 
+	// the text of err is a message, not a format: it can hold
+	// percent signs, like the ones of a file path
+	if len(args) == 0 {
+		return New(line, absPath, origin, "%s", err.Error())
+	}
+
 	return New(line, absPath, origin, err.Error(), args...)
 }
